@@ -293,7 +293,28 @@ func (tr *Tracer) shouldInline(st *state, callee *ssa.Function) bool {
 		}
 		// a function of the module that did not exist when the rules were written is a helper somebody extracted:
 		// its body is part of the caller's logic, so it is always entered (the rules keep seeing the original shape)
-		return depth <= 8 && tr.c.isNewHelper(callee)
+		if depth <= 8 && tr.c.isNewHelper(callee) {
+			return true
+		}
+		// a function literal written inside a new helper, or handed to one by the function under analysis (the visit
+		// callback of an extracted walker), is part of that same logic
+		if depth <= 8 && callee.Parent() != nil {
+			top := callee
+			for top.Parent() != nil {
+				top = top.Parent()
+			}
+			if tr.c.isNewHelper(top) {
+				return true
+			}
+			if top == tr.entry {
+				for _, f := range st.frames {
+					if tr.c.isNewHelper(f.fn) {
+						return true
+					}
+				}
+			}
+		}
+		return false
 	}
 	if depth > tr.cfg.MaxDepth {
 		return false
